@@ -84,6 +84,12 @@ class Expressions(Contract):
                 for order in itertools.permutations(range(4)):
                     k += 1
                     yield {"n": 4, "deps": g, "order": order, "form": k % 3}
+        # expression parameters that carry the non-negative flag (or bounds): their value is still exactly the value of the
+        # expression, whatever its sign - the flags only matter for free parameters
+        for g in (((), (0,), (1,)), ((), (0,), (0, 1))):
+            for order in ((0, 1, 2), (2, 1, 0)):
+                k += 1
+                yield {"n": 3, "deps": g, "order": order, "form": k % 3, "flags": "non_negative"}
         # one 5-parameter chain declared in reverse (deep dependency)
         yield {"n": 5, "deps": ((), (0,), (1,), (2,), (3,)), "order": (4, 3, 2, 1, 0), "form": 0}
         yield {"n": 5, "deps": ((), (0,), (0, 1), (1, 2), (2, 3)), "order": (3, 4, 1, 2, 0), "form": 1}
@@ -122,7 +128,7 @@ class Expressions(Contract):
                 for pos, j in enumerate(d):
                     expr = expr.replace("${" + str(pos) + "}", "$" + LAB[j])
                 # expression parameters start with an arbitrary (stale) value
-                pars[lab] = Parameter(label=lab, value=stale[i], expression=expr)
+                pars[lab] = Parameter(label=lab, value=stale[i], expression=expr, **({"non_negative": True, "minimum": 0.5} if case.get("flags") == "non_negative" else {}))
         return {"pars": pars, "base": base, "new": new}
 
     def call(self, S, case, inp):
@@ -142,8 +148,12 @@ class Expressions(Contract):
         arr = np.array([inp["new"][LAB.index(l)] for l in labels], dtype=object if S.symbolic else float)
         P.set_from_label_and_value_arrays(labels, arr.view(SArr) if S.symbolic else arr)
         after_set = snap(P)
-        _, values, _, _ = P.get_label_value_and_bounds_arrays()
-        exported = {LAB.index(p.label): values[k] for k, p in enumerate(P.all())}
+        if case.get("flags") == "non_negative":
+            # (the optimiser-space export of a non-negative parameter is its logarithm: compare the values themselves)
+            exported = snap(P)
+        else:
+            _, values, _, _ = P.get_label_value_and_bounds_arrays()
+            exported = {LAB.index(p.label): values[k] for k, p in enumerate(P.all())}
         copy_untouched = snap(C)
         return {"init": after_init, "second": after_second, "copy": after_copy, "set": after_set, "exported": exported, "copy_after_set": copy_untouched, "vary": {i: P.get(LAB[i]).vary for i in range(n)}}
 
